@@ -891,7 +891,7 @@ class Actor(object):
 
         if len(srcFields) != len(dstFields):
             msg = ("ResolveError: Unequal number of fields, source = {0} and"
-                  " destination={1)".format(srcFields, dstFields))
+                  " destination={1}".format(srcFields, dstFields))
             raise excepting.ResolveError(msg,
                                          self.name,
                                          '',
